@@ -27,3 +27,22 @@ st('htp_connp_REQ_BODY_CHUNKED_DATA_END', ['C06', 'C09', 'C01'], 'chunk trailer 
             'connp->in_tx->request_message_len == __CPROVER_loop_entry(connp->in_tx->request_message_len) + (connp->in_current_read_offset - __CPROVER_loop_entry(connp->in_current_read_offset))',
             '(gk < CHUNK_CAP && (int64_t) gk >= __CPROVER_loop_entry(connp->in_current_read_offset) && (int64_t) gk < connp->in_current_read_offset) ==> connp->in_current_data[gk] != LF'],
        dec='connp->in_current_len - connp->in_current_read_offset')})
+
+REQ_STATES = ['htp_connp_REQ_IDLE', 'htp_connp_REQ_LINE', 'htp_connp_REQ_PROTOCOL', 'htp_connp_REQ_HEADERS', 'htp_connp_REQ_CONNECT_CHECK', 'htp_connp_REQ_CONNECT_WAIT_RESPONSE', 'htp_connp_REQ_CONNECT_PROBE_DATA', 'htp_connp_REQ_BODY_DETERMINE', 'htp_connp_REQ_BODY_IDENTITY', 'htp_connp_REQ_BODY_CHUNKED_LENGTH', 'htp_connp_REQ_BODY_CHUNKED_DATA', 'htp_connp_REQ_BODY_CHUNKED_DATA_END', 'htp_connp_REQ_FINALIZE', 'htp_connp_REQ_IGNORE_DATA_AFTER_HTTP_0_9']
+UNITS.append(U(name='htp_connp_req_data', props=['C09', 'C16', 'C01'], kind='contract', src=['htp_request.c'], link=['htp_connection.c'],
+               enforce='htp_connp_req_data',
+               replace=[f + '/contract_req_state' for f in REQ_STATES] + ['htp_req_handle_state_change', 'htp_connp_req_receiver_send_data',
+                        'htp_connp_req_buffer/contract_site_htp_connp_req_buffer', 'htp_tx_state_request_complete/contract_site_htp_tx_state_request_complete', 'htp_log'],
+               contracts_inc=INC,
+               loops={'htp_request.c': {'htp_connp_req_data': {'count': 1, 0: dict(
+                   assigns='RQ_STATE_FRAME(connp), g_txstate_n',
+                   inv=['connp->conn == __CPROVER_loop_entry(connp->conn)', 'connp->in_current_len == (int64_t) len', 'connp->in_current_data == (unsigned char *) data', 'CUR_IN_CURSOR(connp)',
+                        'IS_REQ_STATE(connp->in_state)', 'REQ_TX_INV(connp)', 'connp->in_status != HTP_STREAM_STOP && connp->in_status != HTP_STREAM_ERROR'])}}},
+               harness='void HARNESS(void) { htp_connp_t *c; const htp_time_t *t; const void *d; size_t n; htp_connp_req_data(c, t, d, n); CANARY(); }',
+               defs=D, min_obl=100, timeout=(600, 1800), objbits=12,
+               pre_instrument=['--restrict-function-pointer', 'htp_connp_req_data.function_pointer_call.1/' + ','.join(REQ_STATES),
+                               '--restrict-function-pointer', 'htp_connp_req_data.function_pointer_call.2/' + ','.join(REQ_STATES)],
+               sub='request driver: documented stream states only; DATA => whole chunk consumed; DATA_OTHER => strictly fewer and resumable; STOP/ERROR sticky with zero state-function calls; TUNNEL short-circuit with zero calls; byte counter += len; every state function replaced by the shared state contract',
+               assumes=A + ['every request state function replaced by the shared contract contract_req_state (each one is enforced against a contract that contains it)',
+                            'termination of the driver loop is NOT proved here (no decreases clause): see DESIGN C09',
+                            'callbacks return OK/DECLINED/STOP/ERROR only']))
